@@ -13,7 +13,8 @@ CHECKS = {
              "and every pair of a lattice of doubles (signed zeros, subnormals, 2^53/2^63 neighbourhoods, DBL_MAX, inf, nan) is evaluated by the real "
              "interpreter under ASan+UBSan for every arithmetic/bitwise operator and conversion; each result is read back as an exact typed value and "
              "compared with a reference model (Python integers mod 2^64, IEEE doubles via Python/libm). The enumeration is complete within the lattice; "
-             "it says nothing about operands outside it.",
+             "it says nothing about operands outside it."
+             ' Every pair is evaluated with the operands as variables and as temporaries of the same value (4 forms; the variables must be unchanged), and the whole lattice is explored twice: against the clang ASan+UBSan build and against a gcc -O2 build.',
         note="trusted: the reference model, Python floats and libm pow/fmod, clang sanitizers; operands bound through the C++ API (exact bits)",
         design="DESIGN.md section 4, C03"),
     "C04": dict(
@@ -23,7 +24,8 @@ CHECKS = {
              "element, tuple item, result of not/comparison) for and/&&/or/||/xor and not/!, every relational operator with a null side for every "
              "scalar type and null provenance, and if/elsif/while conditions are run on the real interpreter; each expression is evaluated once and "
              "three more times by the same program node inside a loop, pairs of expressions share one loop body, and a fixed probe program checks "
-             "afterwards that null, isnull(null), typeof(null) and all variables still mean the same. The space is finite and enumerated completely.",
+             "afterwards that null, isnull(null), typeof(null) and all variables still mean the same. The space is finite and enumerated completely."
+             ' Also: relational operators with table and tuple operands, boolean-declared functions returning the untyped null or falling off their end, boolean variables reset inside while / if; the space is explored against the clang sanitizer build and the gcc -O2 build.',
         note="trusted: Kleene tables, print formatting of TRUE/FALSE/null; conditions of undefined static type refused at compile time are not counted",
         design="DESIGN.md section 4, C04"),
     "C06": dict(
@@ -35,7 +37,8 @@ CHECKS = {
              "raise / control-variable write) to depth 2 (quick) or 3 (thorough), at top level and inside a function. Each program's printed trace, result, "
              "reported error and final loop variables are compared with the reference interpreter vf/ctl.py; a deterministic step budget separates termination "
              "from non-termination; probe statements then check in the same context that no iterator constraint, table lock, pending break/continue, control "
-             "entry or block level is left behind.",
+             "entry or block level is left behind."
+             ' Added: bodies that change the variables the bounds and the step were taken from (evaluated once); every if / elsif / else chain of <= 3 rules over {true, false, null} at top level, in a loop and in a function; the header family also against the gcc -O2 build.',
         note="trusted: the reference interpreter (structured semantics of the manual), the step budget (200000 statements) as the non-termination verdict",
         design="DESIGN.md section 4, C06"),
     "C07": dict(
@@ -47,7 +50,8 @@ CHECKS = {
              "expression) is run as a top-level program through the C++ API and the C API and as a function body. The reference interpreter decides which "
              "handler runs, error@1/@2, the printed trace and the error number/text reported to the host. The program is then run a second time, a top-level "
              "break/continue must not swallow the next statement, and probe statements check that no loop, iterator constraint, table lock, pending "
-             "break/continue/return or block level survived.",
+             "break/continue/return or block level survived."
+             ' Added payloads: user names that only start like a clause name or that clause names start with; a while condition that fails at its second evaluation after a turn that ended with continue.',
         note="trusted: the reference interpreter vf/ctl.py; the interactive statement loop of the bloc command is covered by the C19 check",
         design="DESIGN.md section 4, C07"),
     "C01": dict(
@@ -59,7 +63,8 @@ CHECKS = {
              "builtin, operator, type method and @rank applied to every argument tuple of a boundary value alphabet (typical, boundary, typed null and "
              "untyped null values of every type, as literals and as variables); each text through the C++ API and the C API, representatives through the "
              "bloc command (file and stdin). Oracle: the outcome is completion, a parse error or a runtime error; no signal, no ASan/UBSan report, no "
-             "foreign exception, no step-budget hit without a loop, no CPU-watchdog hang.",
+             "foreign exception, no step-budget hit without a loop, no CPU-watchdog hang."
+             ' Added families: every outer loop form x inner construct locking the same table x mutation of the iterated table x use of the iterator (1200 programs); scripts that read standard input (readln, read, input) x inputs sized around the internal buffers through the bloc command.',
         note="trusted: clang 14 ASan+UBSan; size arguments capped at 65536 (allocation exhaustion is outside the property's domain); texts outside the alphabets are not covered",
         design="DESIGN.md section 4, C01"),
     "C08": dict(
@@ -72,7 +77,8 @@ CHECKS = {
              "calls whose argument evaluation fails - are executed; the probe call's output/result must equal the same call in a fresh context and the "
              "model value. Caller variables must be unchanged, bodies naming caller variables must be rejected, recursion depths 250..261 (also after "
              "earlier deep or failed recursions) must succeed up to 255 nested calls and raise the recursion-limit error at the 256th, and LeakSanitizer "
-             "must be silent after histories containing failing calls.",
+             "must be silent after histories containing failing calls."
+             ' Added: calls nested in their own argument lists in the call alphabets, the same callee reached at several nesting levels, recursion-limit probes below k+1 levels of another function after earlier calls at other levels.',
         note="trusted: hand-written expected value per call, LeakSanitizer; histories longer than the bound are not covered",
         design="DESIGN.md section 4, C08"),
     "C10": dict(
@@ -84,7 +90,8 @@ CHECKS = {
              "for isnum/num/int on strings and bytes; the integer and decimal lattices for str/int/num/hex round trips; all byte strings of length <=2 plus "
              "length 3 (4) over 16 bytes for base64; every code of the integer lattice and 254..257 for chr/put/concat/insert/raw. Arguments are bound exactly "
              "through the API and re-dumped after the calls (must be unchanged); results are read as hex. Reference: Python bytes operations, base64 and DJB "
-             "hash where the manual defines the value; otherwise totality, memory safety and the stated relations.",
+             "hash where the manual defines the value; otherwise totality, memory safety and the stated relations."
+             ' Added: numeric edge strings, separators containing NUL, an in-place method chained on the result of every built-in with the arguments compared afterwards; the quick space also against the gcc -O2 build.',
         note="trusted: Python bytes/base64 as reference; C locale; trim family only required to strip spaces and nothing but whitespace; hash of bytes >= 0x80 only required to be deterministic",
         design="DESIGN.md section 4, C10"),
     "C09": dict(
@@ -98,7 +105,8 @@ CHECKS = {
              "element has exactly the table's element type (recursively), tuple items their declared types, contents equal a Python-list model, a rejected "
              "operation leaves the dump unchanged, null/out-of-range positions are rejected, in-range results are the documented ones. In addition all "
              "tuple declarations of <=3 (quick, neighbourhood) / <=4 (thorough, all pairs) items over 6 item types are checked pairwise for type identity, "
-             "and every mutator of a table under forall must be refused at compile time.",
+             "and every mutator of a table under forall must be refused at compile time."
+             ' Added: item / element expressions whose value changes from one evaluation to the next (11^3 sequences through tab, concat, put, insert): refused or uniform; level 1 also against the gcc -O2 build.',
         note="trusted: the Python list model; containers above 5 elements are not expanded; 48 tuple-declaration hash collisions are recorded findings (KNOWN_FINDINGS.txt)",
         design="DESIGN.md section 4, C09"),
     "C05": dict(
@@ -110,7 +118,8 @@ CHECKS = {
              "after, except the receiver of an in-place method. (b) Breadth-first search to depth 3 (quick) / 4 (thorough) over histories of b = a, a = a, "
              "fresh assignment, in-place mutators on each variable, t.put(i, a), t = tab(n, a), u = tup(a, ..), element access and mutation through at(), "
              "calls that mutate or return their parameter, and forall writes, for strings, bytes, tables (incl. tables of tables) and tuples; states are "
-             "canonical dumps, and in every state the dump of {a, b, t, u} must equal a Python deep-copy model.",
+             "canonical dumps, and in every state the dump of {a, b, t, u} must equal a Python deep-copy model."
+             ' (c) operand kinds: 130 typed signatures x {constant, variable, temporary, table element, tuple item, function result} per argument, each compared with its all-constant form in the same context, variables unchanged, re-evaluation in an unchanged state, and the same with an in-place method chained on the result; (d) storage locations (variable, forall iterator, for variable, parameter, local, table element, tuple item, returned value) x source kind x 56 reader expressions. (c) and (d) also against the gcc -O2 build.',
         note="trusted: the deep-copy model; impure builtins (random, read, readln, input, getsys, getenv) are excluded from (a); objects are shared by design (C17)",
         design="DESIGN.md section 4, C05"),
     "C11": dict(
@@ -124,7 +133,8 @@ CHECKS = {
              "constraint flags; the function table (names, arities, unparsed bodies) is unchanged; no parsing flag, block level, control entry or backed-up "
              "symbol is left; then a probe suite (call every function, print/retype/mutate every variable, redefine and add functions, run all 22 valid "
              "texts) must behave identically in the disturbed context and in an undisturbed twin. Thorough adds two more prefixes, all three routes for "
-             "every text and chains of two rejected texts.",
+             "every text and chains of two rejected texts."
+             ' Added: rejected texts declaring several functions or one function twice before the error; structured variables re-typed with another rank; texts that include a file (which redefines functions) successfully and fail later.',
         note="trusted: differential twin; names introduced only by the rejected text are ignored, as the property allows",
         design="DESIGN.md section 4, C11"),
     "C12": dict(
@@ -136,7 +146,8 @@ CHECKS = {
              "top level and as function bodies, a sample of the C07 error programs, x:type declarations and function signatures with every type spelling, "
              "chained statements - T1 = unparse(compile(S)) must be accepted in a twin context, both programs must give the same output, result, error "
              "and final variables/functions, and unparse(compile(T1)) must equal T1. Sources the parser rejects are outside the domain and are skipped "
-             "(counted separately).",
+             "(counted separately)."
+             ' Added to the corpus: loop orders with run-time reversed bounds, parenthesised receivers of member operators, module object programs, integer-valued decimals needing 17 digits, statements chained after typed declarations.',
         note="trusted: twin context as 'equivalent context'; the interactive save/load commands are driven by the C19 check",
         design="DESIGN.md section 4, C12"),
     "C13": dict(
@@ -148,7 +159,8 @@ CHECKS = {
              "thorough) and fixed fragment sizes 1..16, 1022, 1023, 1024, 2048; CRLF vs LF through the built-in reader; and 23 lexeme kinds are placed at "
              "5 (quick) / all (thorough) alignments across byte 1023 (and 2046) of one long line, LF and CRLF, through StringReader and through the bloc "
              "command's file and stdin readers, against the same tokens one per line. Oracle: token stream (code, text), parse verdict and message, unparsed "
-             "program and program output are equal to the reference delivery.",
+             "program and program output are equal to the reference delivery."
+             ' Added routes for the long-line and line-length families: the reader of the include statement and the reader of the interactive mode.',
         note="trusted: the unsplit delivery as reference; // and # comments are line-anchored and are not joined onto long lines; a custom reader that passes CR through is compared with itself only",
         design="DESIGN.md section 4, C13"),
     "C02": dict(
@@ -163,7 +175,8 @@ CHECKS = {
              "context; if the whole text runs, every statement must run alone, with the same output, variable values and functions. (c) Every (initial "
              "type, assigned type) pair over 18 typed values for $-variables, for iterators and forall iterators over four element types, by direct "
              "assignment and through an expression of opaque type: typeof never changes while the constraint is active, the iterator accepts any type "
-             "afterwards and the iterated table stays uniform.",
+             "afterwards and the iterated table stays uniform."
+             ' The operand-kind product (typed signatures x constant / variable / temporary / element / item / function result) goes through the same static-vs-dynamic comparison, and a second statement alphabet around tuples, tables of tuples and assignments that are compiled but never executed goes through unit-vs-stepwise.',
         note="trusted: Expression::type() under Context::parsing() is the compile-time type; typeof compared case-insensitively",
         design="DESIGN.md section 4, C02"),
     "C14": dict(
@@ -178,7 +191,8 @@ CHECKS = {
              "context is unchanged; prefix replay divergence is a hard error and schedules are replayed twice for determinism. The same thread bodies "
              "run free under ThreadSanitizer (4 threads quick; 2/4/8 thorough): any report in the library is a violation. All precondition-respecting "
              "orders (length <=5 / <=6) of clone, run in clone, run in original, purge original, free original, free clone, free executable are run "
-             "against a sequential model under ASan.",
+             "against a sequential model under ASan."
+             ' Added: programs reading clone-inherited variables as operands and `matches` with per-clone patterns; the sequential run in clones is compared with runs in contexts that were never cloned; the valid programs of the C01 corpus at 2 threads (bound 1 / 2) and under ThreadSanitizer.',
         note="trusted: sufficiency of the instrumented points (checked by the TSan pass, not assumed); weak memory orderings are not modelled; more than 3 threads only in the TSan pass",
         design="DESIGN.md section 4, C14"),
     "C16": dict(
@@ -191,7 +205,8 @@ CHECKS = {
              "call a function compiled earlier, and run the original's program through execute2. All histories of length <=3 (quick) / <=4 (thorough), "
              "then breadth-first over model-distinct states to depth 6 / 8. Oracle: the constructor compiles in an untrusted context iff the module is "
              "loaded and granted at that moment; import by path and include are refused there; the trusted context is never refused; and the "
-             "verification module's creation log shows no object created by code compiled without a grant.",
+             "verification module's creation log shows no object created by code compiled without a grant."
+             ' Added: 29 constructor spellings (empty / blank / commented argument list, every arity, nested, upper case, inside expressions, conditions, loop headers, handlers, function bodies, return) x 4 situations without a valid grant x original / clone x loaded by import / by construction.',
         note="trusted: the permission model; vmod (harness/vmod.cpp) stands for any module",
         design="DESIGN.md section 4, C16"),
     "C17": dict(
@@ -206,7 +221,8 @@ CHECKS = {
              "with a live holder has been destroyed, every method event is on a live object of the defining module with exactly the supplied arguments, "
              "copies of references create no object, the variables and table hold the objects the model predicts, and after release every created object "
              "has exactly one destroy event. Ten programs offer a vmod2 object where vmod was compiled; no method or constructor of one module may run "
-             "on an object of the other.",
+             "on an object of the other."
+             ' Added: 11 carriers of a foreign object x 10 uses; loops refused at entry or dying in their body; 15 scripts + 4 interactive sessions through the bloc command (file, stdin, --out, -i) with every object destroyed exactly once by process end.',
         note="trusted: the holder model; late destruction (before release) is allowed by the property and not flagged",
         design="DESIGN.md section 4, C17"),
     "C18": dict(
@@ -222,7 +238,8 @@ CHECKS = {
              "tuple of <=2 items (sampled triples quick, all triples thorough) over 21 values (integer and decimal extremes, -0.0, subnormal, empty/quoted/"
              "NUL/high-byte strings, empty and binary bytes, typed nulls, boolean) is bound by exec(sql, tuple) and read back by query() and, independently, "
              "by Python's sqlite3 from the same database file: value and SQL type must match. Every method of the four modules is called with null / "
-             "out-of-range / wrong-type-state arguments on fresh, closed and null objects. Every case runs in its own process under ASan+UBSan.",
+             "out-of-range / wrong-type-state arguments on fresh, closed and null objects. Every case runs in its own process under ASan+UBSan."
+             ' Added: utf8 insert / concat of unicode strings (another one and itself) against Python, object arguments offered to utf8 (own, null, foreign through a function with a declared result type); files and read requests sized around the module buffer, long lines through readln; the sqlite3 prepared-statement path (bind, execute, fetch) against query().',
         note="trusted: Python codecs/sqlite3, the twin-file semantics; size arguments capped; plplot cannot be built here and is not claimed; two utf8 findings recorded (KNOWN_FINDINGS.txt)",
         design="DESIGN.md section 4, C18"),
     "C19": dict(
@@ -237,7 +254,8 @@ CHECKS = {
              "selected output byte-equal (stdout or the --out file, the other empty), returned value printed by the documented rule, exit status 0 iff no "
              "unhandled error, otherwise 'Error (line:column): message' / 'Error: message' on stderr with the library's position and text; interactive "
              "transcripts (prompts, echo, banner, Elapsed removed) print the same lines in the same order as the library's statement-at-a-time run; a saved "
-             "session run again prints the same and saving the loaded session gives the same text.",
+             "session run again prints the same and saving the loaded session gives the same text."
+             ' Added: 12 source bytes x 6 places through file / stdin / --out, option-like program arguments (-e, -i, --parse, --out=), a missing --out file is a violation, save / load sessions from the C12 statement programs.',
         note="trusted: the library run as reference; the ASan build of the bloc executable; terminal colour codes are stripped",
         design="DESIGN.md section 4, C19"),
     "C15": dict(
@@ -252,7 +270,8 @@ CHECKS = {
              "call that ends their guaranteed life (ASan reports an early death); every sequence ends by freeing everything the caller owns, then "
              "LeakSanitizer must be silent. In addition every rejected text of the C11 corpus (about 1 600 quick / 5 000 thorough truncations and "
              "single-token corruptions) is parsed through bloc_parse_executable and bloc_parse_expression, the context must still run a valid program, "
-             "and no memory may remain after release.",
+             "and no memory may remain after release."
+             ' Added to the alphabet: host updates of a variable through its loaded pointer (assign literal / tabchar / null) followed by scripts reading it twice, handler-raises and forall-error executables, a tuple variable re-typed by a parse that is not executed, a table symbol registered by the host, trace flag and version calls.',
         note="trusted: the handle/ownership model in vf/props/c15.py; ASan/LSan of clang 14 (a g++-only leak found by reading is recorded as fixed)",
         design="DESIGN.md section 4, C15"),
 }
